@@ -153,7 +153,7 @@ func (p *c20) parallelClients(x *res, idx int, ctx *runner.Ctx) {
 		}
 	})
 	if !ok {
-		x.viol("deadlock", "parallel-clients", fmt.Sprintf("%d goroutines with their own clients did not finish", g), nil)
+		x.notFinished("parallel-clients", fmt.Sprintf("%d goroutines with their own clients did not finish", g), nil)
 		return
 	}
 	for _, xi := range results {
